@@ -275,8 +275,7 @@ def r16_5(ctx):
         ("await utime(mbox_msg_path(dst_mbox.mailbox, msg_key2), (mtime2, mtime2))", "internal date (mtime) carried to the copy"),
         ("for sequence in sequences:\n    dest_mbox_seqs[sequence].add(msg_key2)", "flags (sequences) carried to the copy"),
         ("with open(msg_path, 'wb') as f:\n    f.write(msg)", "the bytes read are what is written to the staging file"),
-        ("_, src_uid = self.get_uid_from_msg(msg_key)", "source UID looked up for the key being read"),
-        ("src_uids.append(src_uid)", "every source message's UID is reported (MOVE removes exactly these)"),
+        ("_, src_uid = self.get_uid_from_msg(msg_key)\nsrc_uids.append(src_uid)", "source UID looked up for the key being read; every source message's UID is reported (MOVE removes exactly these)"),
         ("with open(msg_path2, 'rb') as f2:\n    msg2 = f2.read()", "the staged bytes are what is added to the destination"),
         ("msg_key2 = int(dst_mbox.mailbox.add(msg2))", "the staged bytes are added to the destination folder, its key kept"),
         ("dst_msg_keys.append(msg_key2)", "destination keys recorded in the order added"),
